@@ -606,6 +606,21 @@ def cfun_lines(ctx):
         lines.append("cfun htp_treat_response_line_as_body %s" % hx(list(s1)))
     for s1 in strings_upto([0x2f, 0x2e, 0x61], 7 if ctx.tier == "quick" else 9):
         lines.append("cfun htp_normalize_uri_path_inplace %s" % hx(list(s1)))
+    for s1 in strings_upto([0x61, 0x41, 0x62, 0x00, 0x5a], 4):
+        h = hx(list(s1))
+        lines.append("cfun bstr_chop %s" % h)
+        lines.append("cfun bstr_to_lowercase %s" % h)
+        lines.append("cfun htp_connp_is_line_folded %s" % hx([0x20] + list(s1)))
+        lines.append("cfun htp_connp_is_line_folded %s" % h)
+        for k in (0, 1, 2, 3, 4, 5, 97, 65, 255):
+            for f in ("bstr_char_at", "bstr_char_at_end", "bstr_chr", "bstr_rchr"):
+                lines.append("cfun %s %s %d" % (f, h, k))
+        for s2 in strings_upto([0x61, 0x41, 0x62], 2):
+            lines.append("cfun bstr_begins_with_mem %s %s" % (h, hx(list(s2))))
+            lines.append("cfun bstr_begins_with_mem_nocase %s %s" % (h, hx(list(s2))))
+    for st in range(0, 9):
+        for b in range(256):
+            lines.append("cfun htp_utf8_decode_allow_overlong %d %d %d" % (st, rng.choice((0, 1, 0x3f, 0x7ff, 0xffff, 0x10ffff, 0x3ffffff, 0xffffffff)), b))
     # the translated list functions driven through whole scripts (exhaustive short ones + long random ones)
     import itertools as _it
     for cap in (1, 2, 3):
